@@ -7,6 +7,7 @@ Import ListNotations.
 Open Scope N_scope.
 
 Inductive op := OBlock (k : block) (f : fault) | OReorg (b : N) | ORestart | OSnap | OReset
+  | OHidden (k : block)                  (* the block is attempted while the node table of the exit tree can neither be read nor written *)
   | ODrive (bs : list (block * fault))    (* the blocks, all buffered, consumed by the real sync.EVMDriver; faults are transient *)
   | OPrestate (n x blk : N).             (* synthetic pre-state: an exit tree of n (>= 1) equal leaves x recorded at block blk (root row + path nodes only) *)
 
@@ -138,6 +139,21 @@ Fixpoint run_ops (ops : list op) (st : bstate) (lastleaf : N -> option N) (obs :
                 | None => fold_left (fun m e => match e with EBridge b => upd_leaf m (b_dc b) (bridge_leaf b) | _ => m end) (k_events k) lastleaf
                 | Some _ => lastleaf end in
       let '(rs, ss) := run_ops rest st' ll obs in (code_of r :: rs, ss)
+    | OHidden k =>
+      (* executable layer only (the reachability theorems have no such step). The attempt is process_block on the same database with
+         an EMPTY node table and the first node insert failing: a cache rebuild that has a root to walk from fails on its first read
+         and leaves the memory as it is (lastIndex is set only after the walk); otherwise the first deposit's hashing loop runs
+         (memory touched as for any abandoned append) and its first node insert fails. Afterwards the table is back: the
+         database is the one before the attempt (a block without deposits succeeds and only adds its other rows). *)
+      let d := st_db st in
+      let hid := mkBst (set_tree d (mkTdb (t_roots (d_tree d)) (NM.empty _))) (st_mem st) (st_halted st) in
+      let '(r, sth) := process_block (Some (TRht, 0%nat)) hid k in
+      let st' := match r with
+                 | None => mkBst (set_tree (st_db sth) (d_tree d)) (st_mem sth) (st_halted sth)
+                 | Some _ => mkBst d (st_mem sth) (st_halted sth)
+                 end in
+      let code := match r with None => 0 | Some PInconsistent => 1 | Some PConstraint => 3 | Some _ => 9 end in
+      let '(rs, ss) := run_ops rest st' lastleaf obs in (code :: rs, ss)
     | OReorg b => let '(rs, ss) := run_ops rest (reorg st b) lastleaf obs in (0 :: rs, ss)
     | ORestart => let '(rs, ss) := run_ops rest (restart st) lastleaf obs in (0 :: rs, ss)
     | OReset => let '(rs, ss) := run_ops rest bstate_new (fun _ => None) obs in (0 :: rs, ss)
@@ -153,7 +169,7 @@ Fixpoint run_ops (ops : list op) (st : bstate) (lastleaf : N -> option N) (obs :
 
 Definition block_leaves (k : block) : list N := flat_map (fun e => match e with EBridge b => [bridge_leaf b] | _ => [] end) (k_events k).
 Definition all_leaves (ops : list op) : list N :=
-  flat_map (fun o => match o with OBlock k _ => block_leaves k | ODrive bs => flat_map (fun kf => block_leaves (fst kf)) bs | _ => [] end) ops.
+  flat_map (fun o => match o with OBlock k _ | OHidden k => block_leaves k | ODrive bs => flat_map (fun kf => block_leaves (fst kf)) bs | _ => [] end) ops.
 
 (* model == implementation, on the main run and on the twin run *)
 Definition corr_run (ops : list op) (res : list N) (snaps : list snap) : bool :=
